@@ -345,6 +345,10 @@ class CTMCCredit(CTMCGrid):
                 eps = min(abs(l - a) / 2, abs(a + h) / 2)
                 if symmetric_grid:
                     # symmetric axes -> this is a current limitation in the code with the pairing function in Z^d
+                    if -a + eps >= r:
+                        raise ValueError(
+                            "mirror of level a greater than the last right point in the grid"
+                        )
                     axis_values = [l, a - eps, a + eps, -h, 0, h, -a - eps, -a + eps, r]
                 else:
                     axis_values = [l, a - eps, a + eps, -h, 0, h, r]
